@@ -8,6 +8,8 @@ from common import rng_for
 from oracle import OracleResult
 
 BUDGET = {'quick': 400, 'thorough': 24000}
+# share of scenarios run on a serial manager (NonThreadedExecutor), with Ctrl-C among the faults
+SERIAL_SHARE = {'C02': 0.2, 'C03': 0.25, 'C05': 0.2, 'C06': 0.2, 'C07': 0.2, 'C08': 0.15, 'C04': 0.15}
 
 
 def focus_for(prop):
@@ -33,7 +35,7 @@ def focus_for(prop):
         for t in sc['transfers']:
             if rng.random() < 0.8:
                 t['kind'] = 'download'
-                t['dest'] = rng.choice(['path', 'path', 'seekable', 'nonseekable'])
+                t['dest'] = rng.choice(['path', 'path', 'path', 'seekable', 'seekable', 'nonseekable', 'nonseekable', 'special'])
                 t.pop('source', None)
                 if t['dest'] == 'path':
                     t['previous'] = rng.choice([None, 5])
@@ -124,9 +126,24 @@ def focus_for(prop):
                 t.pop('source', None)
                 t['size'] = rng.choice([8, 11, 13, 17, 19])
         sc['cfg']['multipart_threshold'] = rng.choice([1, 4, 6])
-        if rng.random() < 0.6:
+        r0 = rng.random()
+        if r0 < 0.5:
             sc['faults'] = []
             sc['cancel'] = None
+        elif r0 < 0.75:
+            # a long stream upload that fails or is cancelled early, with tight limits: what is still held afterwards
+            sc['cfg'].update(multipart_chunksize=2, max_in_memory_upload_chunks=1, max_submission_concurrency=1,
+                             max_request_concurrency=1)
+            for t in sc['transfers']:
+                if t['kind'] == 'upload':
+                    t['size'] = rng.choice([17, 19])
+            if rng.random() < 0.6:
+                sc['faults'] = [{'site': 'req', 'op': 'upload_part', 'nth': rng.choice([0, 1, 2]), 'when': rng.choice(['before', 'after']),
+                                 'exc_kind': 'plain'}]
+                sc['cancel'] = None
+            else:
+                sc['faults'] = []
+                sc['cancel'] = {'kind': 'future', 'transfer': 0, 'after_steps': rng.choice([10, 20, 30, 40])}
         if rng.random() < 0.3:
             # many small stream uploads (single PutObject each) sharing one manager while the request stage is slow
             thr = rng.choice([6, 9, 50])
@@ -139,6 +156,20 @@ def focus_for(prop):
             sc.pop('early_shutdown', None)
             sc['mode'] = 'stall'
             sc['stall'] = {'class': rng.choice(['req-begin', 'upload-body-read', 'req-end']), 'nth': 0, 'len': 400}
+
+    def stream_downloads(sc, rng):
+        # downloads to destinations that cannot seek, small and large relative to io_chunksize, retried stream faults
+        for t in sc['transfers']:
+            t['kind'] = 'download'
+            t['dest'] = rng.choice(['nonseekable', 'nonseekable', 'special'])
+            t.pop('source', None)
+            t['size'] = rng.choice([1, 2, 3, 5, 8, 11, 13])
+        sc['cfg']['io_chunksize'] = rng.choice([1, 2, 3, 8, 16])
+        sc['cfg']['num_download_attempts'] = rng.choice([2, 3])
+        sc['cfg']['multipart_threshold'] = rng.choice([4, 6, 50])
+        if rng.random() < 0.8:
+            sc['faults'] = [{'site': 'body', 'nth_get': rng.choice([0, 0, 1, 2]), 'after': rng.randrange(0, 9), 'kind': 'retryable'}]
+            sc['cancel'] = None
 
     def callbacks(sc, rng):
         # several requests of one transfer in flight when it fails or is cancelled, a subscriber watching
@@ -182,6 +213,21 @@ def focus_for(prop):
             sc['cfg']['multipart_threshold'] = rng.choice([4, 6, 50])
             sc['faults'] = [{'site': 'body', 'nth_get': rng.choice([0, 0, 1]), 'after': rng.randrange(1, 9), 'kind': 'retryable'}]
             sc['cancel'] = None
+        elif rng.random() < 0.3:
+            # a destination that fails once with an error that is also a TimeoutError / ConnectionError
+            for t in sc['transfers']:
+                t['kind'] = 'download'
+                t['dest'] = rng.choice(['path', 'seekable'])
+                t.pop('source', None)
+                t['size'] = rng.choice([3, 5, 8])
+                if t['dest'] == 'path':
+                    t.setdefault('previous', None)
+            sc['cfg']['num_download_attempts'] = rng.choice([2, 3])
+            sc['cfg']['multipart_threshold'] = rng.choice([9, 50])
+            sc['cfg']['io_chunksize'] = rng.choice([2, 3])
+            sc['faults'] = [rng.choice([{'site': 'dest-write', 'transfer': 0, 'nth': rng.randrange(0, 3), 'exc_kind': rng.choice(['timeout', 'brokenpipe'])},
+                                        {'site': 'fs', 'op': 'write', 'nth': rng.randrange(0, 3), 'exc_kind': rng.choice(['timeout', 'brokenpipe'])}])]
+            sc['cancel'] = None
 
     def barrier(sc, rng):
         # shutdown() without cancel entered while several transfers are in flight, some failing
@@ -195,7 +241,8 @@ def focus_for(prop):
             sc['fresh_after'] = False
 
     return {'C03': None, 'C04': slots, 'C05': multipart, 'C06': downloads, 'C07': cancels, 'C08': callbacks,
-            'C09': progress, 'C10': streams, 'C11': streams, 'C12': None, 'C18': barrier, 'C01': multipart, 'C02': downloads}.get(prop)
+            'C09': progress, 'C10': streams, 'C11': streams, 'C12': None, 'C18': barrier, 'C01': multipart, 'C02': downloads,
+            'C16': stream_downloads}.get(prop)
 
 
 def _worker(args):
@@ -207,6 +254,8 @@ def _worker(args):
     out = {'evaluations': 0, 'nontrivial': 0, 'violations': [], 'dist': {}, 'sample': None}
     for i in range(count):
         sc = explore.gen_scenario(rng, focus if (focus and rng.random() < 0.7) else None)
+        if rng.random() < SERIAL_SHARE.get(prop, 0.12):
+            explore.make_serial(sc, rng)
         run = explore.run_scenario(sc)
         res = explore_judge.judge_all(run, [prop])
         out['evaluations'] += 1
@@ -221,6 +270,10 @@ def _worker(args):
         for t in sc['transfers']:
             k = 'transfer:%s' % t['kind']
             out['dist'][k] = out['dist'].get(k, 0) + 1
+        if sc.get('serial'):
+            out['dist']['serial-manager'] = out['dist'].get('serial-manager', 0) + 1
+            if any(f.get('exc_kind') == 'interrupt' or f.get('kind') == 'interrupt' for f in sc['faults']):
+                out['dist']['serial-manager:ctrl-c-inside-a-task'] = out['dist'].get('serial-manager:ctrl-c-inside-a-task', 0) + 1
         if sc['cancel']:
             k = 'cancel:' + sc['cancel']['kind']
             out['dist'][k] = out['dist'].get(k, 0) + 1
@@ -268,5 +321,5 @@ def make(prop):
     return oracle
 
 
-for _p in ['C01', 'C02', 'C03', 'C04', 'C05', 'C06', 'C07', 'C08', 'C09', 'C10', 'C11', 'C12', 'C18']:
+for _p in ['C01', 'C02', 'C03', 'C04', 'C05', 'C06', 'C07', 'C08', 'C09', 'C10', 'C11', 'C12', 'C16', 'C18']:
     globals()['oracle_' + _p] = make(_p)
